@@ -304,8 +304,11 @@ void on_mem_access(uintptr_t a, size_t n, bool write, uintptr_t pc) {
   if (!t || !SH) return;
   event_tick(t, pc);
   if (a >= t->stack_lo && a < t->stack_hi) return;
-  if (write && g_monitor_tables && n && (in_table_set(a) || in_table_set(a + n - 1))) {
-    violation("table-write", site_of_pc(pc).c_str(), "store of %zu bytes into %s during %s", n, data_site(a).c_str(), SH->cur_fn);
+  if (write && g_monitor_tables && n && !g_table_store_seen && (in_table_set(a) || in_table_set(a + n - 1))) {
+    // judged after the op: a store that leaves the table contents as they were is not a modification
+    g_table_store_seen = true;
+    snprintf(g_table_store_site, sizeof g_table_store_site, "%s", site_of_pc(pc).c_str());
+    snprintf(g_table_store_where, sizeof g_table_store_where, "%s", data_site(a).c_str());
   }
   if (g_threads_mode) {
     bool visible = false;
